@@ -4,7 +4,7 @@
     [C20/Proofs.v] and followed by [Print Assumptions]. *)
 From Coq Require Import List Bool.
 Import ListNotations.
-From Attrs Require Import C20.Model C20.Proofs.
+From Attrs Require Import C20.Model C20.Proofs C20.Pipe C20.PipeProofs.
 
 (** set_disabled/get_disabled and set/get_run_validators are views of one switch,
     and construction, hooked assignment and attr.validate run validators iff it is
@@ -45,3 +45,49 @@ Theorem legacy_setter_rejects_nonbool : forall s,
   step s (OSetRun ANonBool) = (s, RaisedTypeError).
 Proof. exact legacy_setter_rejects_nonbool_l. Qed.
 Print Assumptions legacy_setter_rejects_nonbool.
+
+(** Converters and non-validating hooks are unaffected by the switch: for every hook tree a user can
+    hand to on_setattr (stock setters and own callables, piped and nested to any depth), every value
+    and every two switch states, two completed assignments leave the same trace of non-validator hook
+    calls (with the same arguments, in the same order) and store the same value. *)
+Theorem hooks_unaffected_by_switch : forall h thr v s1 s2 t1 o1 t2 o2,
+  run_hook s1 thr h v = (t1, Some o1) -> run_hook s2 thr h v = (t2, Some o2) ->
+  non_val t1 = non_val t2 /\ o1 = o2.
+Proof. exact hook_unaffected_l. Qed.
+Print Assumptions hooks_unaffected_by_switch.
+
+(** Switched off, an assignment always completes, runs no validator and runs every other hook. *)
+Theorem hooks_when_off : forall h thr v s, run s = false ->
+  exists t o, run_hook s thr h v = (t, Some o) /\ existsb is_val t = false /\
+              t = fst (run_novalidate (flatten_hook h) v).
+Proof. exact hook_off_l. Qed.
+Print Assumptions hooks_when_off.
+
+(** Switched on, setters.validate runs the validator at each of its positions, on the value as the
+    hooks before it left it, and the first rejection ends the assignment. *)
+Theorem hooks_when_on : forall h thr v s, run s = true ->
+  run_hook s thr h v = expected_on thr (flatten_hook h) v.
+Proof. exact hook_on_l. Qed.
+Print Assumptions hooks_when_on.
+
+(** How hooks are grouped into pipes is immaterial. *)
+Theorem pipe_nesting_immaterial : forall a b c s thr v,
+  run_hook s thr (HPipe (a ++ [HPipe b] ++ c)) v = run_hook s thr (HPipe (a ++ b ++ c)) v.
+Proof. exact pipe_nesting_l. Qed.
+Print Assumptions pipe_nesting_immaterial.
+
+(** Construction: whatever follows the validators in the generated __init__ (post-init hook, hash
+    cache, BaseException.__init__) happens in every switch state in which construction completes. *)
+Theorem init_tail_unaffected_by_switch : forall s thr t tr,
+  run_init_tail s thr t = (tr, true) -> filter (fun e => negb (is_ival e)) tr = rest_of_init t.
+Proof. exact init_tail_unaffected_l. Qed.
+Print Assumptions init_tail_unaffected_by_switch.
+
+Theorem init_tail_when_off : forall s thr t, run s = false -> run_init_tail s thr t = (rest_of_init t, true).
+Proof. exact init_tail_off_l. Qed.
+Print Assumptions init_tail_when_off.
+
+Theorem init_tail_when_on : forall s thr t, run s = true -> (forall v, In v (t_validated t) -> v < thr) ->
+  run_init_tail s thr t = (map IVal (t_validated t) ++ rest_of_init t, true).
+Proof. exact init_tail_on_all_l. Qed.
+Print Assumptions init_tail_when_on.
